@@ -9,6 +9,7 @@ import Dhlldv.Spec.Fracs
 import Dhlldv.Spec.Workbook
 import Dhlldv.Spec.FileName
 import Dhlldv.Spec.Pump
+import Dhlldv.Spec.OpPoint
 import Dhlldv.Gen.Effects
 
 /-! Line-protocol dispatcher over the hand-written Spec models. -/
@@ -254,6 +255,19 @@ def dispatch (op : String) (a : Array String) : Option String :=
           some (match Spec.Pump.point p (a[11]!).toNat! (f 12) (f 13) (Gen.bOf a[14]!) with
             | none => "none"
             | some (q, h, pw, n) => " ".intercalate ([q, h, pw, n].map Gen.bitsOf))
+  | "spec.findop" =>
+    -- spec.findop sysAtQimin pumpAtQimin qimin qlast <n> q1 gap1 … qn gapn   (the tape of scipy's evaluations of the head gap)
+    if a.size < 5 then none else
+    let n := (a[4]!).toNat!
+    if a.size != 5 + 2 * n then none else
+    let tape := (List.range n).map fun i => (a[5 + 2 * i]!, Gen.fOfBits a[6 + 2 * i]!)
+    let gap : Float → Float := fun q => match tape.find? (fun e => e.1 == Gen.bitsOf q) with
+      | some e => e.2
+      | none => 0.0 / 0.0
+    let f := fun i => Gen.fOfBits a[i]!
+    some (match Spec.OpPoint.findOp (α := Float) gap (f 0) (f 1) (f 2) (f 3) with
+      | .flow q => "flow " ++ Gen.bitsOf q
+      | .operatingPointError => "OperatingPointError")
   | _ => none
 
 end Spec
